@@ -448,7 +448,7 @@ fn plain_lints(text: &[char]) -> Option<Vec<Lint>> {
 pub fn test_race(c: &RaceCase, ctx: &mut CaseCtx) -> Result<(), String> {
     let t0: Vec<char> = c.before.chars().collect();
     let after: String = match c.edit % 4 {
-        0 => format!("A new first line 😀 that is long enough to hold every column of the old text, and then some more of it, and more.\n\nA second one.\n{}", c.before),
+        0 => format!("😀 A new first line that is long enough to hold every column of the old text, and then some more of it, and more.\n\nA second one.\n{}", c.before),
         1 => match c.before.find(". ") {
             Some(i) => c.before[i + 2..].to_string(),
             None => c.other.clone(),
@@ -466,6 +466,11 @@ pub fn test_race(c: &RaceCase, ctx: &mut CaseCtx) -> Result<(), String> {
     for (t, ls) in [(&t0, &l0), (&t1, &l1)] {
         for l in ls.iter().take(4) {
             probes.push((index_to_pos(t, l.span.start), index_to_pos(t, l.span.end)));
+            // the cursor somewhere inside the flagged text
+            let mid = index_to_pos(t, l.span.start + (l.span.end - l.span.start) / 2);
+            probes.push((mid, mid));
+            let next = index_to_pos(t, (l.span.start + 1).min(l.span.end));
+            probes.push((next, next));
         }
     }
     // A client only sends positions of its own buffer, which is the text after the edit. The
